@@ -55,6 +55,7 @@ structure TxnM where
   committedKeys : List Bytes := []
   ended : Bool := false                              -- owner's Commit/Rollback returned
   lastAdvise : Nat := 0
+  beatsAfterEnd : Nat := 0                           -- heartbeats seen after the owner's Commit/Rollback returned
   buffer : List BufEntry := []
   statusAnswers : List (Nat × Bool) := []            -- (commitTS, rolledBack) answers of CheckTxnStatus on its primary
   ttlSeen : Option Nat := none                       -- smallest ttl of a lock of this txn reported in a KeyIsLocked error
@@ -173,7 +174,7 @@ def checksOf (m : MState) : Ev → List (Bool × String)
     let t := m.get startTS client
     [ (t.primary.isNone || t.primary == some primary, "rule6 heartbeat does not name the primary"),
       (advise ≥ t.lastAdvise, "rule6 advise_ttl decreased"),
-      (!t.ended, "rule6 heartbeat after the transaction ended") ]
+      (!t.ended, s!"rule6 heartbeat after the transaction ended (#{t.beatsAfterEnd + 1})") ]
   | _ => []
 
 /-- the state after an accepted event -/
@@ -224,7 +225,9 @@ def applyEv (m : MState) : Ev → MState
     let t := m.get lockTS client
     if answered && !isErr then m.upd { t with statusAnswers := (commitTS, ttl == 0 && commitTS == 0) :: t.statusAnswers } else m
   | .resolve _ _ _ _ _ => m
-  | .heartbeat client _fate _primary startTS advise => m.upd { (m.get startTS client) with lastAdvise := advise }
+  | .heartbeat client _fate _primary startTS advise =>
+    let t := m.get startTS client
+    m.upd { t with lastAdvise := advise, beatsAfterEnd := if t.ended then t.beatsAfterEnd + 1 else t.beatsAfterEnd }
 
 /-- the monitor: an event is accepted iff all its checks hold; the first failing rule is reported -/
 def Monitor.step (m : MState) (ev : Ev) : Except String MState :=
